@@ -1,97 +1,58 @@
 import FiberModel.C04.StackLemmas
 /-
-C04 — the central induction: the entries a definition tree registers with its mounts spliced in are,
-one by one, the entries the tree with every mount replaced by a group registers — up to a relation
-`Q` on the Path that holds by reflexivity everywhere except at an empty in-app path.
+C04 — the central induction: the entries a definition tree registers with its mounts spliced in ARE
+the entries the tree with every mount replaced by a group registers. A mounted app's registration
+paths are prefixed with `getGroupPath` exactly as a group prefixes them (F5), so the two
+denotations are equal by the associativity of `getGroupPath`.
 -/
 namespace C04
-open B Known
+open B
 
-/-- pointwise relation of two lists -/
-def Rel2 {α β} (R : α → β → Prop) : List α → List β → Prop
-  | [], [] => True
-  | a :: as, b :: bs => R a b ∧ Rel2 R as bs
-  | _, _ => False
+/-- the group-side context of a sub-tree: the prefix `s` the sub-tree sits under in the group
+composition, in front of the group prefix `c` inside the (sub-)app -/
+def comp : Option Bytes → Option Bytes → Option Bytes
+  | none, c => c
+  | some g, c => some (match c with | none => g | some x => getGroupPath g x)
 
-theorem Rel2.nil {α β} (R : α → β → Prop) : Rel2 R [] [] := trivial
+/-- what prefixing with `s` does to a canonical registration path -/
+def prefixCtx : Option Bytes → Bytes → Bytes
+  | none, κ => κ
+  | some g, κ => prefixK g κ
 
-theorem Rel2.append {α β} {R : α → β → Prop} {a₁ a₂ : List α} {b₁ b₂ : List β}
-    (h₁ : Rel2 R a₁ b₁) (h₂ : Rel2 R a₂ b₂) : Rel2 R (a₁ ++ a₂) (b₁ ++ b₂) := by
-  induction a₁ generalizing b₁ with
-  | nil => cases b₁ with
-    | nil => exact h₂
-    | cons _ _ => exact absurd h₁ (by simp [Rel2])
-  | cons x xs ih => cases b₁ with
-    | nil => exact absurd h₁ (by simp [Rel2])
-    | cons y ys => exact ⟨h₁.1, ih h₁.2⟩
+theorem regPath_comp (s c : Option Bytes) (p : Bytes) :
+    regPath (comp s c) p = regPath s (regPath c p) := by
+  cases s with
+  | none => rfl
+  | some g =>
+    cases c with
+    | none => rfl
+    | some x => exact getGroupPath_assoc g x p
 
-theorem Rel2.map_same {α β γ} {R : β → γ → Prop} (f : α → β) (g : α → γ) (l : List α)
-    (h : ∀ x, R (f x) (g x)) : Rel2 R (l.map f) (l.map g) := by
-  induction l with
-  | nil => trivial
-  | cons x t ih => exact ⟨h x, ih⟩
+theorem comp_some (s : Option Bytes) (y : Bytes) : comp s (some y) = some (regPath s y) := by
+  cases s <;> rfl
 
-theorem Rel2.map_eq {α β γ} {R : α → β → Prop} {f : α → γ} {g : β → γ} {a : List α} {b : List β}
-    (h : Rel2 R a b) (hfg : ∀ x y, R x y → f x = g y) : a.map f = b.map g := by
-  induction a generalizing b with
-  | nil => cases b with
-    | nil => rfl
-    | cons _ _ => exact absurd h (by simp [Rel2])
-  | cons x xs ih => cases b with
-    | nil => exact absurd h (by simp [Rel2])
-    | cons y ys => simp [hfg x y h.1, ih h.2]
+theorem comp_none_right (g : Bytes) : comp (some g) none = some g := rfl
 
-/-- two entries: same kind, same handler, Paths related by `Q` -/
-def ERel (Q : Bytes → Bytes → Prop) (em eg : Entry) : Prop :=
-  em.1 = eg.1 ∧ em.2.2 = eg.2.2 ∧ Q em.2.1 eg.2.1
+/-- a single registration -/
+theorem leaf_eq (s c : Option Bytes) (p : Bytes) :
+    canon (regPath (comp s c) p) = prefixCtx s (canon (regPath c p)) := by
+  rw [regPath_comp]
+  cases s with
+  | none => rfl
+  | some g =>
+    show canon (getGroupPath g (regPath c p)) = canon (getGroupPath g (canon (regPath c p)))
+    rw [ggp_canon]
 
-/-- How a sub-tree of the mounted composition sits in the group composition: `T` turns a Path as
-the (sub-)app stores it into the Path in the root table, `c` is the group prefix inside the
-(sub-)app, `s` the group prefix the group composition is at. -/
-structure CtxOK (T : Bytes → Bytes) (c s : Option Bytes) : Prop where
-  nonempty : ∀ x, regPath c x ≠ [] → T (rawOf (regPath c x)) = rawOf (regPath s x)
-  empty : regPath c [] = [] → T [47] = rawOf (trimR 47 (regPath s []) ++ [47])
-
-theorem CtxOK.top : CtxOK id none none :=
-  ⟨fun _ _ => rfl, fun _ => rfl⟩
-
-theorem CtxOK.group {T : Bytes → Bytes} {c s : Option Bytes} (h : CtxOK T c s) (p : Bytes) :
-    CtxOK T (some (regPath c p)) (some (regPath s p)) := by
-  constructor
-  · intro x hx
-    have e1 : regPath (some (regPath c p)) x = regPath c (getGroupPath p x) := regPath_ggp c p x
-    have e2 : regPath (some (regPath s p)) x = regPath s (getGroupPath p x) := regPath_ggp s p x
-    rw [e1] at hx ⊢
-    rw [e2]
-    exact h.nonempty _ hx
-  · intro he
-    have e1 : regPath (some (regPath c p)) [] = regPath c p := ggp_nil_right _
-    have e2 : regPath (some (regPath s p)) [] = regPath s p := ggp_nil_right _
-    rw [e1] at he
-    rw [e2]
-    have hp : p = [] := regPath_eq_nil he
-    subst hp
-    exact h.empty he
-
-theorem CtxOK.mount {T : Bytes → Bytes} {c s : Option Bytes} (h : CtxOK T c s) (p : Bytes) :
-    CtxOK (fun r => T (getGroupPath (rawOf (mountPath (regPath c p))) r)) none (some (regPath s p)) := by
-  have key : ∀ x, x ≠ [] →
-      T (getGroupPath (rawOf (mountPath (regPath c p))) (rawOf x)) = rawOf (getGroupPath (regPath s p) x) := by
-    intro x hx
-    rw [mount_prefix_eq_group hx, regPath_ggp, regPath_ggp]
-    apply h.nonempty
-    intro e
-    exact hx (ggp_eq_nil.mp (regPath_eq_nil e)).2
-  constructor
-  · intro x hx
-    exact key x hx
-  · intro _
-    have h47 : rawOf ([47] : Bytes) = [47] := rfl
-    have := key [47] (by simp)
-    rw [h47, ggp_slash_right (regPath s p)] at this
-    have e2 : regPath (some (regPath s p)) [] = regPath s p := ggp_nil_right _
-    rw [e2]
-    exact this
+/-- prefixing twice = prefixing with the composed prefix -/
+theorem prefixCtx_prefixK (s c : Option Bytes) (p κ : Bytes) :
+    prefixCtx s (prefixK (regPath c p) κ) = prefixK (regPath (comp s c) p) κ := by
+  rw [regPath_comp]
+  cases s with
+  | none => rfl
+  | some g =>
+    show canon (getGroupPath g (canon (getGroupPath (regPath c p) κ))) =
+      canon (getGroupPath (getGroupPath g (regPath c p)) κ)
+    rw [ggp_canon, getGroupPath_assoc]
 
 theorem mapRaw_map (T U : Bytes → Bytes) (l : List Entry) :
     (l.map (mapRaw U)).map (mapRaw T) = l.map (mapRaw fun r => T (U r)) := by
@@ -101,290 +62,54 @@ theorem regEntries_map (T : Bytes → Bytes) (u : Bool) (raw : Bytes) (n : Nat) 
     (regEntries u raw n hs).map (mapRaw T) = regEntries u (T raw) n hs := by
   simp [regEntries, List.map_map, Function.comp_def, mapRaw]
 
-theorem regEntries_rel {Q : Bytes → Bytes → Prop} (u : Bool) (a b : Bytes) (n : Nat) (hs : List Nat)
-    (h : Q a b) : Rel2 (ERel Q) (regEntries u a n hs) (regEntries u b n hs) := by
-  unfold regEntries
-  exact Rel2.map_same _ _ _ (fun _ => ⟨rfl, rfl, h⟩)
-
-section
-variable (Q : Bytes → Bytes → Prop) (bad : Bytes → Bool)
-variable (hrefl : ∀ a, Q a a)
-variable (hbad : ∀ S, bad S = false → Q (rawOf (trimR 47 S ++ [47])) (rawOf S))
-include hrefl hbad
-
-/-- a single registration: the Path in the mounted composition is related to the Path in the group
-composition -/
-theorem leaf_rel {T : Bytes → Bytes} {c s : Option Bytes} (h : CtxOK T c s) (p : Bytes)
-    (hr : (regPath c p == [] && bad (regPath s p)) = false) :
-    Q (T (rawOf (regPath c p))) (rawOf (regPath s p)) := by
-  by_cases he : regPath c p = []
-  · have hp : p = [] := regPath_eq_nil he
-    subst hp
-    simp only [he, beq_self_eq_true, Bool.true_and] at hr
-    rw [he]
-    have : rawOf ([] : Bytes) = [47] := rfl
-    rw [this, h.empty he]
-    exact hbad _ hr
-  · rw [h.nonempty p he]
-    exact hrefl _
-
 mutual
-theorem denItem_rel (k : Nat) (hk : k < nMethods) :
-    ∀ (i : Item) (T : Bytes → Bytes) (c s : Option Bytes), CtxOK T c s → regionItem bad c s i = false →
-      Rel2 (ERel Q) ((denItem c k i).map (mapRaw T)) (denItem s k (unmountItem i))
-  | .route ms p hs, T, c, s, h, hr => by
-    simp only [denItem, unmountItem, regionItem] at hr ⊢
-    rw [regEntries_map]
-    exact regEntries_rel _ _ _ _ _ (leaf_rel Q bad hrefl hbad h p hr)
-  | .use p hs, T, c, s, h, hr => by
-    simp only [denItem, unmountItem, regionItem] at hr ⊢
-    rw [regEntries_map]
-    exact regEntries_rel _ _ _ _ _ (leaf_rel Q bad hrefl hbad h p hr)
-  | .group p hs items, T, c, s, h, hr => by
-    simp only [denItem, unmountItem, regionItem, Bool.or_eq_false_iff] at hr ⊢
-    rw [List.map_append, regEntries_map]
-    apply Rel2.append
-    · by_cases hh : hs = []
-      · subst hh; rw [regEntries_nil, regEntries_nil]; trivial
-      · have hne : hs.isEmpty = false := by cases hs <;> simp_all
-        have hr1 := hr.1
-        simp only [hne, Bool.not_false, Bool.true_and] at hr1
-        exact regEntries_rel _ _ _ _ _ (leaf_rel Q bad hrefl hbad h p hr1)
-    · exact denItems_rel k hk items T _ _ (h.group p) hr.2
-  | .mount p scfg sub, T, c, s, h, hr => by
-    simp only [denItem, unmountItem, regionItem, hk, if_true] at hr ⊢
-    rw [mapRaw_map, regEntries_nil, List.nil_append]
-    exact denItems_rel k hk sub _ none _ (h.mount p) hr
-theorem denItems_rel (k : Nat) (hk : k < nMethods) :
-    ∀ (is : List Item) (T : Bytes → Bytes) (c s : Option Bytes), CtxOK T c s → regionItems bad c s is = false →
-      Rel2 (ERel Q) ((denItems c k is).map (mapRaw T)) (denItems s k (unmountItems is))
-  | [], _, _, _, _, _ => by
-    simp only [denItems, unmountItems, List.map_nil]
-    exact Rel2.nil _
-  | i :: is, T, c, s, h, hr => by
-    simp only [denItems, unmountItems, regionItems, Bool.or_eq_false_iff] at hr ⊢
-    rw [List.map_append]
-    exact Rel2.append (denItem_rel k hk i T c s h hr.1) (denItems_rel k hk is T c s h hr.2)
-end
-
-/-- the two route tables, entry by entry -/
-theorem flatten_rel (cfg : Cfg) (po : Bytes → List Bytes) (items : List Item) (k : Nat) (hk : k < nMethods)
-    (hr : regionItems bad none none items = false) :
-    Rel2 (ERel Q) (expand (flatten cfg po items k)) (expand (flattenSpec cfg po items k)) := by
-  unfold flattenSpec
-  rw [expand_flatten, expand_flatten]
-  have := denItems_rel Q bad hrefl hbad k hk items id none none CtxOK.top hr
-  have hid : (denItems none k items).map (mapRaw id) = denItems none k items := by
-    have : mapRaw id = id := by funext e; rfl
-    rw [this, List.map_id]
-  rwa [hid] at this
-
-end
-
-/-! ### the two instances of `Q` -/
-
-/-- Paths that the matcher cannot tell apart: equal, or (StrictRouting off) equal after trimming
-trailing slashes with something left -/
-def RawRel (cfg : Cfg) (a b : Bytes) : Prop :=
-  a = b ∨ (cfg.strict = false ∧ trimR 47 a = trimR 47 b ∧ trimR 47 a ≠ [])
-
-theorem emptyAgree_eq {S : Bytes} (h : emptyAgree S = true) : rawOf (trimR 47 S ++ [47]) = rawOf S := by
-  unfold emptyAgree at h
-  rw [trimRight_eq_trimR] at h
-  exact eq_of_beq h
-
-theorem rawRel_of_not_bad (cfg : Cfg) (S : Bytes) (h : badPrefix cfg S = false) :
-    RawRel cfg (rawOf (trimR 47 S ++ [47])) (rawOf S) := by
-  unfold badPrefix at h
-  rw [trimRight_eq_trimR] at h
-  by_cases ha : emptyAgree S = true
-  · exact Or.inl (emptyAgree_eq ha)
-  · simp only [ha, Bool.not_false, Bool.true_and, Bool.or_eq_false_iff] at h
-    have hs : cfg.strict = false := h.1
-    have ht : trimR 47 S ≠ [] := by
-      intro e; rw [e] at h; simp at h
-    refine Or.inr ⟨hs, ?_, ?_⟩
-    · simp only [rawOf]
-      rw [ensureSlash_append ht, trimR_append_single, trimR_ensureSlash (by rw [trimR_idem]; exact ht),
-        trimR_idem, trimR_ensureSlash ht]
-    · simp only [rawOf]
-      rw [ensureSlash_append ht, trimR_append_single, trimR_ensureSlash (by rw [trimR_idem]; exact ht)]
-      exact ensureSlash_ne_nil _
-
-/-- the parser's parameter list does not depend on trailing slashes of the Path (assumption on the
-opaque parser, checked on every case by the driver) -/
-def TrailInv (po : Bytes → List Bytes) : Prop :=
-  ∀ a b : Bytes, trimRight a 47 = trimRight b 47 → trimRight a 47 ≠ [] → po a = po b
-
-theorem obsOf_eq_of_rawRel {cfg : Cfg} {po : Bytes → List Bytes} (hpo : TrailInv po) {em eg : Entry}
-    (h : ERel (RawRel cfg) em eg) : obsOf cfg po em = obsOf cfg po eg := by
-  obtain ⟨h1, h2, h3⟩ := h
-  unfold obsOf
-  rcases h3 with h3 | ⟨hs, ht, hne⟩
-  · rw [h1, h2, h3]
-  · have hp : prettyOf cfg em.2.1 = prettyOf cfg eg.2.1 := by
-      rw [prettyOf_nonstrict hs hne, prettyOf_nonstrict hs (by rw [← ht]; exact hne), ht]
-    have hpar : po em.2.1 = po eg.2.1 := by
-      apply hpo
-      · rw [trimRight_eq_trimR, trimRight_eq_trimR]; exact ht
-      · rw [trimRight_eq_trimR]; exact hne
-    simp only [cleanOf, hp, hpar, h1, h2]
-
-/-! ### every route of the table carries the fields `register` derives from its Path -/
-
-def RouteOK (cfg : Cfg) (po : Bytes → List Bytes) (r : Route) : Prop :=
-  r.pretty = prettyOf cfg r.raw ∧ r.path = cleanOf cfg r.raw ∧ r.params = po r.raw ∧
-  r.root = (cleanOf cfg r.raw == [47]) ∧ r.star = (prettyOf cfg r.raw == [47, 42])
-
-def SlotsOK (cfg : Cfg) (po : Bytes → List Bytes) (l : List Slot) : Prop :=
-  ∀ r, Slot.route r ∈ l → RouteOK cfg po r
-
-theorem routeOK_mkRoute (cfg : Cfg) (po : Bytes → List Bytes) (u : Bool) (p : Bytes) (hs : List Nat) :
-    RouteOK cfg po (mkRoute cfg po u p hs) := ⟨rfl, rfl, rfl, rfl, rfl⟩
-
-theorem routeOK_addPrefix (cfg : Cfg) (po : Bytes → List Bytes) (raw : Bytes) (r : Route) :
-    RouteOK cfg po (addPrefix cfg po raw r) := ⟨rfl, rfl, rfl, rfl, rfl⟩
-
-theorem slotsOK_pushRoute {cfg : Cfg} {po : Bytes → List Bytes} {l : List Slot} {r : Route} (c : Nat)
-    (hl : SlotsOK cfg po l) (hr : RouteOK cfg po r) : SlotsOK cfg po (pushRoute l r c).1 := by
-  unfold pushRoute
-  split
-  · rename_i p t
-    by_cases h : p.raw = r.raw ∧ p.use = r.use
-    · rw [if_pos h]
-      intro x hx
-      rcases List.mem_cons.mp hx with hx | hx
-      · have hp := hl p (by simp)
-        injection hx with hx; subst hx
-        exact hp
-      · exact hl x (List.mem_cons_of_mem _ hx)
-    · rw [if_neg h]
-      intro x hx
-      rcases List.mem_cons.mp hx with hx | hx
-      · injection hx with hx; subst hx; exact hr
-      · exact hl x hx
-  · intro x hx
-    rcases List.mem_cons.mp hx with hx | hx
-    · injection hx with hx; subst hx; exact hr
-    · exact hl x hx
-
-def StOK (cfg : Cfg) (po : Bytes → List Bytes) (st : St) : Prop := ∀ k, SlotsOK cfg po (st.stacks k)
-
-theorem stOK_addRoute {cfg : Cfg} {po : Bytes → List Bytes} {st : St} (m : Nat) {r : Route}
-    (hs : StOK cfg po st) (hr : RouteOK cfg po r) : StOK cfg po (addRoute m r st) := by
-  intro k
-  unfold addRoute
-  by_cases h : k = m
-  · subst h; simp only [if_true]; exact slotsOK_pushRoute _ (hs k) hr
-  · simp only [h, if_false]; exact hs k
-
-theorem stOK_regMany {cfg : Cfg} {po : Bytes → List Bytes} (ms : List Nat) {r : Route} {st : St}
-    (hs : StOK cfg po st) (hr : RouteOK cfg po r) : StOK cfg po (regMany ms r st) := by
-  induction ms generalizing st with
-  | nil => exact hs
-  | cons m ms ih => exact ih (stOK_addRoute m hs hr)
-
-theorem stOK_foldl_addMount {cfg : Cfg} {po : Bytes → List Bytes} (ms : List Nat) (raw : Bytes)
-    (sub : Nat → List Route) {st : St} (hs : StOK cfg po st) :
-    StOK cfg po (ms.foldl (fun st m => addMount m raw sub st) st) := by
-  induction ms generalizing st with
-  | nil => exact hs
-  | cons m ms ih =>
-    apply ih
-    intro k
-    unfold addMount
-    by_cases h : k = m
-    · subst h
-      simp only [if_true]
-      intro x hx
-      rcases List.mem_cons.mp hx with hx | hx
-      · cases hx
-      · exact hs k x hx
-    · simp only [h, if_false]; exact hs k
-
-theorem stOK_regMount {cfg : Cfg} {po : Bytes → List Bytes} (raw : Bytes)
-    (sub : Nat → List Route) {st : St} (hs : StOK cfg po st) : StOK cfg po (regMount raw sub st) := by
-  intro k
-  exact stOK_foldl_addMount allMethods raw sub hs k
-
-mutual
-theorem stOK_buildItem (cfg : Cfg) (po : Bytes → List Bytes) (c : Option Bytes) :
-    ∀ (i : Item) (st : St), StOK cfg po st → StOK cfg po (buildItem cfg po c i st)
-  | .route ms p hs, st, h => by
-    simp only [buildItem]; exact stOK_regMany ms h (routeOK_mkRoute ..)
-  | .use p hs, st, h => by
-    simp only [buildItem]; exact stOK_regMany _ h (routeOK_mkRoute ..)
-  | .group p hs items, st, h => by
-    simp only [buildItem]
-    apply stOK_buildItems cfg po _ items
-    by_cases hh : hs = []
-    · simp [hh]; exact h
-    · simp only [hh, if_false]; exact stOK_regMany _ h (routeOK_mkRoute ..)
-  | .mount p scfg sub, st, h => by
-    simp only [buildItem]
-    exact stOK_regMount _ _ h
-theorem stOK_buildItems (cfg : Cfg) (po : Bytes → List Bytes) (c : Option Bytes) :
-    ∀ (is : List Item) (st : St), StOK cfg po st → StOK cfg po (buildItems cfg po c is st)
-  | [], st, h => by simpa [buildItems] using h
-  | i :: is, st, h => by
-    simp only [buildItems]
-    exact stOK_buildItems cfg po c is _ (stOK_buildItem cfg po c i st h)
-end
-
-theorem routeOK_splice {cfg : Cfg} {po : Bytes → List Bytes} (k : Nat) {l : List Slot}
-    (h : SlotsOK cfg po l) : ∀ r ∈ splice cfg po k l, RouteOK cfg po r := by
-  induction l with
-  | nil => intro r hr; cases hr
-  | cons s t ih =>
-    have ht : SlotsOK cfg po t := fun r hr => h r (List.mem_cons_of_mem _ hr)
-    cases s with
-    | route x =>
-      intro r hr
-      simp only [splice] at hr
-      rcases List.mem_cons.mp hr with rfl | hr
-      · exact h r (by simp)
-      · exact ih ht r hr
-    | mount raw sub =>
-      intro r hr
-      simp only [splice, List.mem_append, List.mem_map] at hr
-      rcases hr with ⟨x, _, rfl⟩ | hr
-      · exact routeOK_addPrefix ..
-      · exact ih ht r hr
-
-theorem routeOK_renum {cfg : Cfg} {po : Bytes → List Bytes} (c : Nat) {l : List Route}
-    (h : ∀ r ∈ l, RouteOK cfg po r) : ∀ r ∈ renum c l, RouteOK cfg po r := by
-  induction l generalizing c with
-  | nil => intro r hr; cases hr
-  | cons x t ih =>
-    intro r hr
-    simp only [renum] at hr
-    rcases List.mem_cons.mp hr with rfl | hr
-    · exact h x (by simp)
-    · exact ih (c + 1) (fun r hr => h r (List.mem_cons_of_mem _ hr)) r hr
-
-theorem routeOK_flatten (cfg : Cfg) (po : Bytes → List Bytes) (items : List Item) (k : Nat) :
-    ∀ r ∈ flatten cfg po items k, RouteOK cfg po r := by
-  have hst : StOK cfg po (buildItems cfg po none items St.init) :=
-    stOK_buildItems cfg po none items St.init (fun _ r hr => by cases hr)
-  have hsl : SlotsOK cfg po ((buildItems cfg po none items St.init).stacks k).reverse :=
-    fun r hr => hst k r (List.mem_reverse.mp hr)
-  unfold flatten finish
-  by_cases hm : (buildItems cfg po none items St.init).mounted = true
-  · simp only [hm, if_true]
-    exact routeOK_renum _ (routeOK_splice k hsl)
-  · simp only [hm, Bool.false_eq_true, if_false]
-    exact routeOK_splice k hsl
-
-theorem expandObs_eq {cfg : Cfg} {po : Bytes → List Bytes} {l : List Route}
-    (h : ∀ r ∈ l, RouteOK cfg po r) : expandObs l = (expand l).map (obsOf cfg po) := by
-  induction l with
-  | nil => rfl
-  | cons r t ih =>
-    have hr := h r (by simp)
-    have ht := ih (fun x hx => h x (List.mem_cons_of_mem _ hx))
-    simp only [expandObs, expand, List.flatMap_cons, List.map_append] at ht ⊢
-    rw [ht]
+theorem denItem_unmount (k : Nat) (hk : k < nMethods) :
+    ∀ (i : Item) (s c : Option Bytes),
+      denItem (comp s c) k (unmountItem i) = (denItem c k i).map (mapRaw (prefixCtx s))
+  | .route ms p hs, s, c => by
+    simp only [denItem, unmountItem]
+    rw [regEntries_map, leaf_eq]
+  | .use p hs, s, c => by
+    simp only [denItem, unmountItem]
+    rw [regEntries_map, leaf_eq]
+  | .group p hs items, s, c => by
+    simp only [denItem, unmountItem]
+    rw [List.map_append, regEntries_map, leaf_eq, ← denItems_unmount k hk items s (some (regPath c p)),
+      comp_some, regPath_comp]
+  | .mount p scfg sub, s, c => by
+    simp only [denItem, unmountItem, hk, if_true]
+    rw [regEntries_nil, List.nil_append, mapRaw_map]
+    have h := denItems_unmount k hk sub (some (regPath (comp s c) p)) none
+    rw [comp_none_right] at h
+    rw [h]
     congr 1
-    simp [obsOf, hr.1, hr.2.1, hr.2.2.1]
+    funext e
+    show (e.1, prefixK (regPath (comp s c) p) e.2.1, e.2.2) =
+      (e.1, prefixCtx s (prefixK (regPath c p) e.2.1), e.2.2)
+    rw [prefixCtx_prefixK]
+theorem denItems_unmount (k : Nat) (hk : k < nMethods) :
+    ∀ (is : List Item) (s c : Option Bytes),
+      denItems (comp s c) k (unmountItems is) = (denItems c k is).map (mapRaw (prefixCtx s))
+  | [], _, _ => by simp only [denItems, unmountItems, List.map_nil]
+  | i :: is, s, c => by
+    simp only [denItems, unmountItems]
+    rw [List.map_append, denItem_unmount k hk i s c, denItems_unmount k hk is s c]
+end
+
+/-- the two route tables register, per method and handler by handler, the same registration paths -/
+theorem flatten_keys_eq (cfg : Cfg) (po : Bytes → List Bytes) (items : List Item) (k : Nat) (hk : k < nMethods) :
+    expandK (flatten cfg po items k) = expandK (flattenSpec cfg po items k) := by
+  unfold flattenSpec
+  rw [expandK_flatten, expandK_flatten]
+  have h := denItems_unmount k hk items none none
+  have hid : mapRaw (prefixCtx none) = id := by funext e; rfl
+  rw [hid, List.map_id] at h
+  exact h.symm
+
+/-- … hence the same Paths -/
+theorem flatten_expand_eq (cfg : Cfg) (po : Bytes → List Bytes) (items : List Item) (k : Nat) (hk : k < nMethods) :
+    expand (flatten cfg po items k) = expand (flattenSpec cfg po items k) := by
+  rw [expand_eq_expandK (subOK_flatten cfg po items k), flatten_keys_eq cfg po items k hk]
+  exact (expand_eq_expandK (subOK_flatten cfg po (unmountItems items) k)).symm
 
 end C04
